@@ -542,4 +542,86 @@ def gsOpMetrics (o : Dict) : Option (List Dict) :=
   | some (.arr xs) => recsOfJ xs
   | _ => none
 
+/-! ## the store as an object with state: histories of deliveries and queries on ONE store
+    (`put_value_*` → `_add`, `bulk_add(memento)`, `to_externalizable(clear)`, any query in between) -/
+
+/-- the read API (what race control, the calculator and the reporters call) -/
+inductive QKind where
+  | get (q : Query)
+  | stats (q : Query)
+  | mean (q : Query)
+  | median (q : Query)
+  | pcts (q : Query) (ps : List Rat)
+  | unit (name : Str) (task op : Option Str)
+  | errRate (task : Str) (op : Option Str) (st : Option SType)
+  | duration (task : Str)
+  | results (sched : List Task)
+
+inductive Ans where
+  | vals (l : List Rat)
+  | stats (o : Option StatsR)
+  | num (o : Option Rat)
+  | pcts (l : List (Rat × Rat))
+  | unit (o : Option Str)
+  | rate (q : Rat)
+  | ops (l : List OpMetrics)
+  deriving DecidableEq
+
+/-- every query is a function of the current document list only -/
+def evalQ (tbl : PTable) (docs : List Rec) : QKind → Except Err Ans
+  | .get q => (valuesE docs q).map .vals
+  | .stats q => (valuesE docs q).map (fun vs => .stats (statsOf vs))
+  | .mean q => (valuesE docs q).map (fun vs => .num (meanOf vs))
+  | .median q => ((valuesE docs q).bind medianOf).map .num
+  | .pcts q ps => ((valuesE docs q).bind (fun vs => percentilesOf vs ps)).map .pcts
+  | .unit name task op => (unitE docs name task op).map .unit
+  | .errRate task op st => (errorRateE docs task op st).map .rate
+  | .duration task => (durationE docs task).map .num
+  | .results sched => (calcE tbl docs sched).map .ops
+
+/-- what happens to one store object -/
+inductive SEv where
+  /-- `put_value_cluster_level / put_value_node_level / put_doc` → `_add(doc)` -/
+  | put (d : Rec)
+  /-- `bulk_add(memento)`: the documents another store externalized, in their order -/
+  | bulk (ds : List Rec)
+  /-- `to_externalizable(clear)`; the receiver of the memento then asks `q` about its content -/
+  | handover (clear : Bool) (q : QKind)
+  | query (q : QKind)
+
+def stepState (docs : List Rec) : SEv → List Rec
+  | .put d => docs ++ [d]
+  | .bulk ds => docs ++ ds
+  | .handover clear _ => if clear then [] else docs
+  | .query _ => docs
+
+def stepAns (tbl : PTable) (docs : List Rec) : SEv → Option (Except Err Ans)
+  | .put _ => none
+  | .bulk _ => none
+  | .handover _ q => some (evalQ tbl docs q)
+  | .query q => some (evalQ tbl docs q)
+
+/-- the answers a history produces, in order -/
+def runHist (tbl : PTable) : List Rec → List SEv → List (Except Err Ans)
+  | _, [] => []
+  | docs, e :: es =>
+    match stepAns tbl docs e with
+    | some a => a :: runHist tbl (stepState docs e) es
+    | none => runHist tbl (stepState docs e) es
+
+def stateAfter (docs : List Rec) (h : List SEv) : List Rec := h.foldl stepState docs
+
+def SEv.clears : SEv → Bool
+  | .handover clear _ => clear
+  | _ => false
+
+def SEv.docs : SEv → List Rec
+  | .put d => [d]
+  | .bulk ds => ds
+  | _ => []
+
+/-- declarative: everything delivered since the last clearing hand-over, in delivery order -/
+def delivered (h : List SEv) : List Rec :=
+  ((h.reverse.takeWhile (fun e => !e.clears)).reverse).flatMap SEv.docs
+
 end Stats
